@@ -4,7 +4,8 @@
 (*                                                                         *)
 (* An instance is  [ex, items, chans, aux]                                 *)
 (*    ex     the instance exists                                           *)
-(*    items  sequence of [id, label]  (id = identity of the item object)   *)
+(*    items  sequence of [id, label, val]  (id = identity of the item      *)
+(*           object, val = identity of its CONTENT: samples, geometry)     *)
 (*    chans  sequence of channel numbers, parallel to items, for the       *)
 (*           channel-mapped kinds (EMG, platform calibration, platform     *)
 (*           data); <<>> for the others                                    *)
@@ -42,7 +43,7 @@ Ids(inst)    == {inst.items[k].id : k \in 1..Len(inst.items)}
 Range(s)     == {s[k] : k \in 1..Len(s)}
 PosOf(inst, id) == CHOOSE k \in 1..Len(inst.items) : inst.items[k].id = id
 ChanOf(inst, id) == inst.chans[PosOf(inst, id)]
-Strip(xs)    == [k \in 1..Len(xs) |-> [id |-> xs[k].id, label |-> xs[k].label]]
+Strip(xs)    == [k \in 1..Len(xs) |-> [id |-> xs[k].id, label |-> xs[k].label, val |-> xs[k].val]]
 RemoveAt(s, k) == [j \in 1..(Len(s) - 1) |-> IF j < k THEN s[j] ELSE s[j + 1]]
 
 If(c, name) == IF c THEN {name} ELSE {}
@@ -69,12 +70,17 @@ StateClauses(kind, a, b) ==
 
 \* ---------------------------------------------------------------- per call
 \* everything but instance i is untouched (C20)
-OthersSame(w, w2, I) == \A j \in DOMAIN w : j \notin I => w2[j] = w[j]
+\* (once the caller has put the same item objects into two blocks - share_ok - editing the
+\* content of such an item legitimately shows in both: contents are then not compared)
+NoVal(inst) == [inst EXCEPT !.items = [k \in 1..Len(inst.items) |-> [inst.items[k] EXCEPT !.val = 0]]]
+OthersSameS(w, w2, I, shared) == \A j \in DOMAIN w : j \notin I =>
+                                   IF shared THEN NoVal(w2[j]) = NoVal(w[j]) ELSE w2[j] = w[j]
+OthersSame(w, w2, I) == OthersSameS(w, w2, I, FALSE)
 \* a decode may also fill a "twin" slot: the same bytes decoded a second time
 Touched(o) == IF o.op = "decode" THEN {o.j} \cup (IF "twin" \in DOMAIN o THEN {o.twin} ELSE {}) ELSE {o.i}
 
 AddClauses(kind, a, b, o, r) ==
-  LET x == [id |-> o.x.id, label |-> o.x.label]
+  LET x == [id |-> o.x.id, label |-> o.x.label, val |-> o.x.val]
       appended == b.items = Append(a.items, x) IN
   IF ~o.good THEN
        \* C16: an item of the wrong length or kind is refused, block unchanged
@@ -114,7 +120,7 @@ RECURSIVE AddAll(_, _, _, _)
 AddAll(inst, xs, cs, k) ==   \* first k elements added with explicit channels
   IF k = 0 THEN inst
   ELSE LET p == AddAll(inst, xs, cs, k - 1) IN
-       [p EXCEPT !.items = Append(@, [id |-> xs[k].id, label |-> xs[k].label]), !.chans = Append(@, cs[k])]
+       [p EXCEPT !.items = Append(@, [id |-> xs[k].id, label |-> xs[k].label, val |-> xs[k].val]), !.chans = Append(@, cs[k])]
 BulkAddClauses(kind, a, b, o, r) ==
   IF o.cs = <<>> THEN \* automatic channels
        If(r.ok /\ (Len(b.items) # Len(a.items) + Len(o.xs) \/ SubSeq(b.items, 1, Len(a.items)) # a.items), "C15:bulk_add")
@@ -146,9 +152,10 @@ EncodeClauses(kind, a, r) ==
 Step(kind, w, o, w2, r) ==
   LET i == o.i  a == w[i]  b == w2[i] IN
   \* C20: nobody else is touched; a lookup or an encoding touches nobody
-  If(~OthersSame(w, w2, Touched(o)), "C20:other_instance_changed")
+  If(~OthersSameS(w, w2, Touched(o), o.share_ok), "C20:other_instance_changed")
   \* C20: no item object lives in two instances
-  \cup If(\E p, q \in DOMAIN w2 : p # q /\ Ids(w2[p]) \cap Ids(w2[q]) # {}, "C20:instances_share_items")
+  \* (unless the caller itself put the same item objects into two blocks: o.share_ok)
+  \cup If(~o.share_ok /\ \E p, q \in DOMAIN w2 : p # q /\ Ids(w2[p]) \cap Ids(w2[q]) # {}, "C20:instances_share_items")
   \cup If(o.op \in {"lookup", "encode"} /\ w2 # w, IF o.op = "lookup" THEN "C18:lookup_changed_block" ELSE "C20:encode_changed_block")
   \cup (IF o.op = "decode" THEN StateClauses(kind, NoInst, w2[o.j]) ELSE StateClauses(kind, a, b))
   \cup (CASE o.op = "construct" ->
@@ -172,5 +179,19 @@ Step(kind, w, o, w2, r) ==
           [] o.op = "lookup"      -> LookupClauses(kind, a, o, r)
           [] o.op = "encode"      -> EncodeClauses(kind, a, r)
           [] o.op = "aux"         -> If(~r.ok \/ b # [a EXCEPT !.aux = @ + 1], "C20:aux_edit")
+          \* the content of ONE item edited in place: that item's content changes, nothing else
+          [] o.op = "edit"        -> If(~r.ok \/ Len(b.items) # Len(a.items)
+                                         \/ (Len(b.items) = Len(a.items) /\ \E k \in 1..Len(a.items) :
+                                               IF k = o.pos THEN b.items[k].val = a.items[k].val \/ b.items[k].id # a.items[k].id
+                                               ELSE b.items[k] # a.items[k])
+                                         \/ b.chans # a.chans, "C20:edit_leaked_within_block")
+          \* the item list read from block j through its public getter is assigned to block i: i
+          \* then holds j's items (the caller shares the item OBJECTS), j is untouched - and stays
+          \* untouched by whatever is done to i afterwards (OthersSame on the following calls)
+          [] o.op = "assign_from" -> If(~r.ok \/ Len(b.items) # Len(w[o.j].items)
+                                         \/ (Len(b.items) = Len(w[o.j].items) /\ \E k \in 1..Len(b.items) :
+                                                b.items[k].label # w[o.j].items[k].label), "C20:assign_from")
+          \* the harness changes a list it handed to the block earlier: no block may notice
+          [] o.op = "poke"        -> If(w2 # w, "C20:caller_list_aliased")
           [] OTHER -> {})
 =============================================================================
